@@ -43,7 +43,7 @@ def gen_history(r, nops):
         elif x < 0.30 + wdel:
             ops.append("del 1 %s %d" % (G.H(k), c))
         elif x < 0.85:
-            ops += ["cur %d to %s" % (ci, r.choice(["next", "next", "next", "prev"])), "cur %d key" % ci]
+            ops += ["cur %d to %s" % (ci, r.choice(["next", "next", "prev", "prev"])), "cur %d key" % ci]
         elif x < 0.91:
             ops.append("cur %d del" % ci)
         elif x < 0.94:
@@ -137,7 +137,7 @@ def run(ctx):
     else:
         explore(ctx, h, drv, 1200, 400, "main")
         explore(ctx, h, drv, 20, 8000, "long")
-    if ctx.proof_broken or ctx.corr_broken:
+    if (ctx.proof_broken or ctx.corr_broken) and not ctx.violations:
         explore(ctx, h, drv, 150, 300, "search")
 
 
